@@ -85,6 +85,7 @@ fn main() {
         "print" => cmd_print(&args),
         "timelimit" => cmd_timelimit(&args),
         "faults" => cmd_faults(&args),
+        "longrun" => cmd_longrun(&args),
         "presolve-replay" => {
             let r = replay_presolve::replay_file(&args.get("in", "b.ndjson"), &args.get("out", "m.ndjson"), args.num("seed", 1));
             println!("{}", r);
@@ -577,6 +578,55 @@ fn cmd_faults(args: &Args) {
     write_lines(&args.get("out", "faults.ndjson"), &lines);
     write_lines(&args.get("cases", "faults.cases.ndjson"), &cases);
     let meta = json!({"runs": count, "status_hist": hist, "points": points});
+    std::fs::write(args.get("meta", "meta.json"), serde_json::to_string(&meta).unwrap()).unwrap();
+    println!("{}", meta);
+}
+
+/// C04: runs to the numerical limit - every tolerance zero, 500 iterations allowed - mostly on nonsymmetric cones,
+/// whose iterates then approach the cone boundary to rounding distance (guards and asserts in the barrier code).
+fn cmd_longrun(args: &Args) {
+    let seed = args.num("seed", 1);
+    let count = args.num("count", 80) as usize;
+    let mut rng = StdRng::seed_from_u64(seed ^ 0x10c9);
+    let mut lines = vec![];
+    let mut cases = vec![];
+    let mut hist: HashMap<String, usize> = HashMap::new();
+    let mut iters = 0u64;
+    for run in 0..count {
+        let k = rng.gen_range(1..=3);
+        let mut cones: Vec<problem::ConeSpec> = (0..k).map(|_| match rng.gen_range(0..5) {
+            0 => problem::ConeSpec::Exp,
+            1 => problem::ConeSpec::Pow((rng.gen_range(205..820) as f64) / 1024.0),
+            2 | 3 => { let ka = rng.gen_range(2..=3); problem::ConeSpec::GenPow(gen::genpow_alpha(&mut rng, ka), rng.gen_range(1..=2)) }
+            _ => problem::ConeSpec::Soc(rng.gen_range(2..=5)),
+        }).collect();
+        if rng.gen::<bool>() { cones.push(problem::ConeSpec::Nonneg(rng.gen_range(1..=2))); }
+        let n = rng.gen_range(1..=4);
+        let mut p = gen::planted_with_cones(&mut rng, &gen::GenOpts::default(), n, cones);
+        let mut s = serde_json::Map::new();
+        for key in ["tol_gap_abs", "tol_gap_rel", "tol_feas", "tol_infeas_abs", "tol_infeas_rel", "tol_ktratio",
+                    "reduced_tol_gap_abs", "reduced_tol_gap_rel", "reduced_tol_feas", "reduced_tol_infeas_abs", "reduced_tol_infeas_rel", "reduced_tol_ktratio"] {
+            s.insert(key.into(), json!(0.0));
+        }
+        s.insert("max_iter".into(), json!(500));
+        if rng.gen::<f64>() < 0.3 { s.insert("equilibrate_enable".into(), json!(false)); }
+        p.settings = Value::Object(s);
+        p.tag.push_str("+longrun");
+        let out = rec_ipm::run_ipm(run, &p, &rec_ipm::RunOpts::default());
+        cases.push(json!({"run": run, "problem": p}));
+        match (&out.result, &out.panic) {
+            (Some(r), _) => {
+                *hist.entry(rec_ipm::STATUS_NAMES[r.status].to_string()).or_default() += 1;
+                iters += r.iterations as u64;
+                lines.extend(out.lines);
+            }
+            (None, Some(m)) => lines.push(json!({"ev": "Panic", "run": run, "msg": m})),
+            _ => unreachable!(),
+        }
+    }
+    write_lines(&args.get("out", "longrun.ndjson"), &lines);
+    write_lines(&args.get("cases", "longrun.cases.ndjson"), &cases);
+    let meta = json!({"runs": count, "status_hist": hist, "iterations": iters});
     std::fs::write(args.get("meta", "meta.json"), serde_json::to_string(&meta).unwrap()).unwrap();
     println!("{}", meta);
 }
